@@ -127,12 +127,130 @@ func (c *Ctx) Locks() []core.Ob {
 		return []core.Ob{{Rule: "R-LOCK", Key: "table", Status: core.Violated, Armed: true, Got: err.Error()}}
 	}
 	var obs []core.Ob
+	for i := range table {
+		if why := c.discoverLock(&table[i]); why != "" {
+			obs = append(obs, core.Ob{Rule: "R-LOCK", Key: table[i].Type + "#instance", Status: core.Violated, Armed: true,
+				Want: "the lock, the condition variable and the fields they guard are recognisable from the type's methods", Got: why})
+			continue
+		}
+		c.Notes = append(c.Notes, fmt.Sprintf("R-LOCK instance %s: lock %s, cond %q, guarded fields %v (discovered from the struct layout and the methods' mutations)",
+			table[i].Type, table[i].Lock, table[i].Cond, table[i].Fields))
+	}
 	for _, inst := range table {
+		if inst.Lock == "" {
+			continue
+		}
 		obs = append(obs, c.lockInstance(inst)...)
 	}
 	obs = append(obs, c.lockPairingEverywhere(table)...)
 	obs = append(obs, c.chanQueuePush()...)
 	return obs
+}
+
+// discoverLock fills in what rules/lock.json leaves open for a type: the lock is
+// the receiver field path its methods call Lock on, the condition variable the
+// field of type sync.Cond, the guarded fields those the methods mutate (a
+// store, a map update, or a call of a mutating method on the field's object).
+// Field names are read from the program, not frozen in the table.
+func (c *Ctx) discoverLock(inst *LockInstance) string {
+	methods := methodsOfType(c, inst.Type)
+	if len(methods) == 0 {
+		return "type " + inst.Type + " has no methods (renamed or removed)"
+	}
+	var st *types.Struct
+	if n, ok := types.Unalias(deref(methods[0].Signature.Recv().Type())).(*types.Named); ok {
+		st, _ = n.Underlying().(*types.Struct)
+	}
+	if st == nil {
+		return inst.Type + " is not a struct"
+	}
+	isSync := func(t types.Type) bool {
+		n, ok := types.Unalias(deref(t)).(*types.Named)
+		return ok && n.Obj().Pkg() != nil && n.Obj().Pkg().Path() == "sync"
+	}
+	if inst.Cond == "" {
+		for i := 0; i < st.NumFields(); i++ {
+			if n, ok := types.Unalias(deref(st.Field(i).Type())).(*types.Named); ok && n.Obj().Pkg() != nil && n.Obj().Pkg().Path() == "sync" && n.Obj().Name() == "Cond" {
+				inst.Cond = st.Field(i).Name()
+			}
+		}
+	}
+	lockUse := map[string]int{}
+	mutated := map[string]bool{}
+	for _, fn := range methods {
+		if len(fn.Params) == 0 {
+			continue
+		}
+		recv := fn.Params[0]
+		top := func(path string) string {
+			if i := strings.Index(path, "."); i >= 0 {
+				return path[:i]
+			}
+			return path
+		}
+		for _, b := range fn.Blocks {
+			for _, in := range b.Instrs {
+				switch x := in.(type) {
+				case ssa.CallInstruction:
+					cc := x.Common()
+					if op, ok := classifyLockOp(cc, recv); ok {
+						if op.kind == "lock" {
+							lockUse[op.id]++
+						}
+						continue
+					}
+					var tgt ssa.Value
+					mname := ""
+					if cc.IsInvoke() {
+						tgt, mname = cc.Value, cc.Method.Name()
+					} else if len(cc.Args) > 0 && cc.StaticCallee() != nil && cc.StaticCallee().Signature.Recv() != nil {
+						tgt, mname = cc.Args[0], cc.StaticCallee().Name()
+					}
+					if tgt != nil {
+						if path, ok := fieldPathFromRecv(tgt, recv); ok && path != "" && !contains(inst.ReadOnly, mname) {
+							if _, isPtr := tgt.Type().Underlying().(*types.Pointer); isPtr {
+								mutated[top(path)] = true
+							}
+						}
+					}
+				case *ssa.Store:
+					if path, ok := fieldPathFromRecv(x.Addr, recv); ok && path != "" {
+						mutated[top(path)] = true
+					}
+				case *ssa.MapUpdate:
+					if path, ok := fieldPathFromRecv(x.Map, recv); ok && path != "" {
+						mutated[top(path)] = true
+					}
+				}
+			}
+		}
+	}
+	if inst.Lock == "" {
+		best := ""
+		for p, n := range lockUse {
+			if best == "" || n > lockUse[best] || (n == lockUse[best] && p < best) {
+				best = p
+			}
+		}
+		if best == "" {
+			return "no method of " + inst.Type + " takes a lock"
+		}
+		inst.Lock = best
+	}
+	if len(inst.Fields) == 0 {
+		for i := 0; i < st.NumFields(); i++ {
+			f := st.Field(i)
+			if isSync(f.Type()) || !mutated[f.Name()] {
+				continue
+			}
+			inst.Fields = append(inst.Fields, f.Name())
+		}
+		sort.Strings(inst.Fields)
+	}
+	if len(inst.Fields) == 0 {
+		return "no field of " + inst.Type + " is mutated by its methods: nothing to guard"
+	}
+	return ""
 }
 
 func methodsOfType(c *Ctx, typ string) []*ssa.Function {
@@ -199,9 +317,21 @@ func (c *Ctx) lockInstance(inst LockInstance) []core.Ob {
 			selfLocking[fn] = true
 		}
 	}
-	for _, fn := range methods {
+	isMethod := map[*ssa.Function]bool{}
+	for _, m := range methods {
+		isMethod[m] = true
+	}
+	// helpers that run with the caller's lock held ("the caller must hold the lock"): unexported
+	// methods that never lock themselves and whose every call site is in a method of the type at a
+	// point where the lock is held. They are analysed with the lock held on entry, and what they do to
+	// the guarded state counts for the calling method's notify obligations.
+	callHeld := map[*ssa.Function][]bool{}
+	helper := map[*ssa.Function]bool{}
+	helperMut := map[*ssa.Function][2]bool{} // mutates guarded state, stores a terminal bool
+	var analyse func(fn *ssa.Function, report bool)
+	analyse = func(fn *ssa.Function, report bool) {
 		if len(fn.Params) == 0 || len(fn.Blocks) == 0 {
-			continue
+			return
 		}
 		recv := fn.Params[0]
 		fname := fn.Name()
@@ -217,7 +347,7 @@ func (c *Ctx) lockInstance(inst LockInstance) []core.Ob {
 		}
 		in := map[*ssa.BasicBlock]lockState{}
 		seen := map[*ssa.BasicBlock]bool{}
-		in[fn.Blocks[0]] = lockState{}
+		in[fn.Blocks[0]] = lockState{held: helper[fn]}
 		seen[fn.Blocks[0]] = true
 		work := []*ssa.BasicBlock{fn.Blocks[0]}
 		type finding struct {
@@ -283,6 +413,24 @@ func (c *Ctx) lockInstance(inst LockInstance) []core.Ob {
 								}
 							}
 							continue
+						}
+						// call of a sibling method on the same receiver: remember whether the lock is held here
+						if sc := x.Common().StaticCallee(); sc != nil && isMethod[core.Origin(sc)] && len(x.Common().Args) > 0 && x.Common().Args[0] == ssa.Value(recv) {
+							g := core.Origin(sc)
+							if !report {
+								callHeld[g] = append(callHeld[g], st.held)
+							}
+							if helper[g] {
+								eff := helperMut[g]
+								st.readSeen = true
+								if eff[0] {
+									st.pending = true
+								}
+								if eff[1] {
+									st.pendingB = true
+								}
+								continue
+							}
 						}
 						// call of a sibling method that locks internally and reads guarded state
 						if sc := x.Common().StaticCallee(); sc != nil && selfLocking[core.Origin(sc)] && len(x.Common().Args) > 0 && x.Common().Args[0] == ssa.Value(recv) {
@@ -375,8 +523,14 @@ func (c *Ctx) lockInstance(inst LockInstance) []core.Ob {
 								kind = "panic"
 							}
 							o := mk(fmt.Sprintf("%s.exit(%s)#%d", fname, kind, ord["exit"]), inst.Lock+" is released on every exit (explicitly or by a deferred Unlock)", insn.Pos(), fn)
-							if st.held && !st.deferred {
+							if st.held && !st.deferred && !helper[fn] {
 								o.Status, o.Got = core.Violated, "function exits ("+kind+") with the lock still held: every later operation blocks forever"
+							}
+							if helper[fn] {
+								o.Want = "a helper that runs under the caller's lock leaves it held for the caller"
+								if !st.held {
+									o.Status, o.Got = core.Violated, "the helper releases the caller's lock on some path"
+								}
 							}
 							if st.deferred && inst.Cond != "" && !waits && (st.pending || st.pendingB) {
 								o.Status, o.Got = core.Violated, "guarded state changed without Signal/Broadcast before the deferred Unlock"
@@ -447,7 +601,94 @@ func (c *Ctx) lockInstance(inst LockInstance) []core.Ob {
 				break
 			}
 		}
-		run(true)
+		if report {
+			run(true)
+		}
+	}
+	locksItself := func(fn *ssa.Function) bool {
+		for _, b := range fn.Blocks {
+			for _, in := range b.Instrs {
+				if ci, ok := in.(ssa.CallInstruction); ok && len(fn.Params) > 0 {
+					if op, ok := classifyLockOp(ci.Common(), fn.Params[0]); ok && (op.kind == "lock" || op.kind == "unlock") && op.id == inst.Lock {
+						return true
+					}
+				}
+			}
+		}
+		return false
+	}
+	cg := c.P.CallGraph()
+	for round := 0; round < 3; round++ {
+		for k := range callHeld {
+			delete(callHeld, k)
+		}
+		for _, fn := range methods {
+			analyse(fn, false)
+		}
+		changed := false
+		for _, m := range methods {
+			if helper[m] || len(m.Params) == 0 || (m.Object() != nil && m.Object().Exported()) || locksItself(m) || len(callHeld[m]) == 0 {
+				continue
+			}
+			all := true
+			for _, h := range callHeld[m] {
+				all = all && h
+			}
+			// no caller outside the type's methods
+			if n := cg.Nodes[m]; n != nil {
+				for _, e := range n.In {
+					if e.Caller != nil && e.Caller.Func != nil && !isMethod[core.Origin(e.Caller.Func)] {
+						all = false
+					}
+				}
+			}
+			for _, inst2 := range c.instancesOf(m) {
+				if n := cg.Nodes[inst2]; n != nil {
+					for _, e := range n.In {
+						if e.Caller != nil && e.Caller.Func != nil && !isMethod[core.Origin(e.Caller.Func)] {
+							all = false
+						}
+					}
+				}
+			}
+			if !all {
+				continue
+			}
+			helper[m] = true
+			changed = true
+			var eff [2]bool
+			for _, b := range m.Blocks {
+				for _, insn := range b.Instrs {
+					switch x := insn.(type) {
+					case *ssa.Store:
+						if path, ok := fieldPathFromRecv(x.Addr, m.Params[0]); ok && contains(inst.Fields, path) {
+							eff[0] = true
+							if bt, ok := x.Val.Type().Underlying().(*types.Basic); ok && bt.Kind() == types.Bool {
+								eff[1] = true
+							}
+						}
+					case *ssa.MapUpdate:
+						if path, ok := fieldPathFromRecv(x.Map, m.Params[0]); ok && contains(inst.Fields, path) {
+							eff[0] = true
+						}
+					case *ssa.Call:
+						cc := x.Common()
+						if !cc.IsInvoke() && len(cc.Args) > 0 && cc.StaticCallee() != nil && cc.StaticCallee().Signature.Recv() != nil {
+							if path, ok := fieldPathFromRecv(cc.Args[0], m.Params[0]); ok && contains(inst.Fields, path) && !contains(inst.ReadOnly, cc.StaticCallee().Name()) {
+								eff[0] = true
+							}
+						}
+					}
+				}
+			}
+			helperMut[m] = eff
+		}
+		if !changed {
+			break
+		}
+	}
+	for _, fn := range methods {
+		analyse(fn, true)
 	}
 	for _, f := range inst.Fields {
 		o := core.Ob{Rule: "R-LOCK", Key: inst.Type + "#field(" + f + ")", Armed: true, Want: "confirmed guarded field is still accessed by the type's methods", Status: core.OK}
@@ -625,16 +866,31 @@ func (c *Ctx) chanQueuePush() []core.Ob {
 
 func returnsBoolConsts(fn *ssa.Function) bool {
 	t, f := false, false
+	var visit func(v ssa.Value, d int)
+	visit = func(v ssa.Value, d int) {
+		if d > 4 {
+			return
+		}
+		switch x := v.(type) {
+		case *ssa.Const:
+			if x.Value != nil {
+				if strings.Contains(x.Value.String(), "true") {
+					t = true
+				} else {
+					f = true
+				}
+			}
+		case *ssa.Phi:
+			// pushed := false; select { case c <- v: pushed = true; default: }; return pushed
+			for _, e := range x.Edges {
+				visit(e, d+1)
+			}
+		}
+	}
 	for _, b := range fn.Blocks {
 		for _, in := range b.Instrs {
 			if r, ok := in.(*ssa.Return); ok && len(r.Results) == 1 {
-				if k, ok := r.Results[0].(*ssa.Const); ok && k.Value != nil {
-					if strings.Contains(k.Value.String(), "true") {
-						t = true
-					} else {
-						f = true
-					}
-				}
+				visit(r.Results[0], 0)
 			}
 		}
 	}
